@@ -77,9 +77,9 @@ def r1_single_writer(ctx, cfg='A'):
     sites = P.call_sites_of(SET)
     callers = sorted({s.fn.key for s in sites})
     ctx.floor('callers of SimTime::set_now', len(callers), 2)
-    allowed = {'des::runtime::builder::Builder::build', RT + '::dispatch_event'}
+    allowed = {'des::runtime::builder::Builder::build'} | {g.key for g in P.scope_of(RT + '::dispatch_event')}
     for c in callers:
-        ctx.check(c in allowed, 'set_now-caller:%s' % c, 'SimTime::set_now is called only from Builder::build and Runtime::dispatch_event',
+        ctx.check(c in allowed, 'set_now-caller:%s' % c, 'SimTime::set_now is called only from Builder::build and the dispatch step (Runtime::dispatch_event)',
                   P.fns[c].where(), c)
     # fn item leaks (set_now taken as a value)
     leaks = [g.key for g in P.fn_list if SET in P.callees_of(g) and g.key not in callers]
@@ -87,45 +87,46 @@ def r1_single_writer(ctx, cfg='A'):
 
 
 def r2_dispatch_order(ctx, cfg='A'):
+    """per dispatch step (see rules/dispatch.py): the clock is set exactly once, to the time component of the frame fetched in this
+    very step, only off the limit path, before that frame's event is handled"""
     ctx.set_rule('C02.R2', cfg)
-    P = ctx.progs[cfg]
-    f = P.fns.get(RT + '::dispatch_event')
+    from .dispatch import dispatch_iterations, HANDLE
+    f, its, form = dispatch_iterations(ctx, cfg)
     if f is None:
         ctx.violation('anchor:dispatch_event', 'unresolved-anchor Runtime::dispatch_event'); return
     ctx.touch(f)
-    sets = f.calls_to(SET)
-    handles = [s for s in f.calls() if s.callee == 'des::runtime::event::types::Event::handle']
-    fetches = f.calls_to(fes(cfg) + '::fetch_next')
-    if not (ctx.floor('set_now in dispatch_event', len(sets), 1) and ctx.floor('Event::handle in dispatch_event', len(handles), 1)
-            and ctx.floor('fetch_next in dispatch_event', len(fetches), 1)):
-        return
-    for s in sets:
-        t = peel(f.expr_operand(s.args[0], s.b, 'T'))
-        ok = t[0] == 'field' and t[2] == '1' and peel(t[1])[0] == 'call' and peel(t[1])[1] == fes(cfg) + '::fetch_next'
-        ctx.check(ok, 'set_now-operand', "the clock is set to the time component of this iteration's fetch_next result", s.where(), show(t))
-        # off the limit path: guarded by applies(..) == false
-        g = [a for _, a in f.guard_atoms(s.b)]
-        off = any(a[0] == 'bool' and a[1][0] == 'call' and a[1][1] == 'des::runtime::limit::RuntimeLimit::applies' and a[2] is False for a in g)
-        ctx.check(off, 'set_now-off-limit-path', 'the clock is written only when the limit does not apply to the fetched event', s.where(), [show_atom(a) for a in g])
-        for h in handles:
-            ctx.check(f.dominates(s.b, h.b) and s.b != h.b, 'set_now-before-handle', 'the clock write dominates the Event::handle call', h.where())
-            # the handled event is the one fetched together with that time
-            ev = peel(f.expr_operand(h.args[0], h.b, 'T'))
-            ok2 = ev[0] == 'field' and ev[2] == '0' and peel(ev[1])[0] == 'call' and peel(ev[1])[1] == fes(cfg) + '::fetch_next' \
-                and peel(ev[1])[3] == peel(t[1])[3] if ok else False
-            ctx.check(ok2, 'handle-same-frame', 'the event handled is the one fetched together with the time the clock was set to', h.where(), show(ev))
-    for h in handles:
-        # nothing else that writes the clock between: set_now is the only writer (R1) and is called once per path
-        n = 0
-        for path, outcome, decs in fn_paths(ctx, f):
-            effs = path_effects(f, path)
-            idx_h = [i for i, e in enumerate(effs) if e[0] == 'c' and e[1].b == h.b]
-            if not idx_h:
-                continue
-            n += 1
-            k = sum(1 for e in effs[:idx_h[0]] if e[0] == 'c' and SET in e[1].names())
-            ctx.check(k == 1, 'one-clock-write-per-dispatch', 'exactly one clock write precedes the handler on every dispatching path', f.where_path(path), k)
-        ctx.floor('dispatching paths', n, 1)
+    FETCH = fes(cfg) + '::fetch_next'
+    n_set = n_handle = 0
+    for it in its:
+        ev = it.stream()
+        i_set = [i for i, e in enumerate(ev) if e[0] == 'c' and SET in e[1].names()]
+        i_han = [i for i, e in enumerate(ev) if e[0] == 'c' and e[1].callee == HANDLE]
+        i_fet = [i for i, e in enumerate(ev) if e[0] == 'c' and FETCH in e[1].names()]
+        if i_han:
+            n_handle += 1
+            ctx.check(len(i_set) == 1 and i_set[0] < i_han[0], 'one-clock-write-per-dispatch',
+                      'exactly one clock write precedes the handler on every dispatching path', it.where(), len(i_set))
+        for i in i_set:
+            n_set += 1
+            site = ev[i][1]
+            pos = max(k for k, b in enumerate(it.path) if b == site.b)
+            t = peel(f.expr_operand_on_path(site.args[0], it.path, pos, 'T'))
+            fb = ev[i_fet[-1]][1].b if i_fet and i_fet[-1] < i else None
+            ok = t[0] == 'field' and t[2] == '1' and peel(t[1])[0] == 'call' and peel(t[1])[1] == FETCH and peel(t[1])[3] == fb
+            ctx.check(ok, 'set_now-operand', "the clock is set to the time component of this iteration's fetch_next result", site.where(), show(t)[:200])
+            before = [e[1] for e in ev[:i] if e[0] == 'atom']
+            off = any(a and a[0] == 'bool' and a[1][0] == 'call' and a[1][1] == 'des::runtime::limit::RuntimeLimit::applies' and a[2] is False for a in before)
+            ctx.check(off, 'set_now-off-limit-path', 'the clock is written only when the limit does not apply to the fetched event', site.where(),
+                      [show_atom(a) for a in before if a][:6])
+            for j in i_han:
+                h = ev[j][1]
+                ctx.check(j > i, 'set_now-before-handle', 'the clock write precedes the Event::handle call', h.where())
+                posh = max(k for k, b in enumerate(it.path) if b == h.b)
+                evt = peel(f.expr_operand_on_path(h.args[0], it.path, posh, 'T'))
+                ok2 = ok and evt[0] == 'field' and evt[2] == '0' and peel(evt[1])[0] == 'call' and peel(evt[1])[1] == FETCH and peel(evt[1])[3] == fb
+                ctx.check(ok2, 'handle-same-frame', 'the event handled is the one fetched together with the time the clock was set to', h.where(), show(evt)[:200])
+    ctx.floor('clock writes in the dispatch step', n_set, 1)
+    ctx.floor('dispatching paths', n_handle, 1)
 
 
 def r3_start_time(ctx, cfg='A'):
